@@ -479,7 +479,7 @@ PROPERTIES = {
     "C07": dict(level="exploration", parts=e3_parts("C07", "AC", dict(quick=150000, thorough=2500000)) + [e3_miri_part("C07", dict(quick=30, thorough=400))] + [fuzz_part("gendrive", "C07", dict(quick=0, thorough=300000), 160)]),
     "C15": dict(level="exploration", parts=e3_parts("C15", "AB", dict(quick=150000, thorough=2500000))),
     "C16": dict(level="exploration", parts=e3_parts("C16", "AB", dict(quick=150000, thorough=2500000)) + [fuzz_part("gendrive", "C16", dict(quick=0, thorough=150000), 160)]),
-    "C08": dict(level="exploration", parts=e4_parts("C08", dict(quick=150000, thorough=2000000), dict(quick=8, thorough=12)) + [fuzz_part("vecconv", "C08", dict(quick=0, thorough=600000), 128)]),
+    "C08": dict(level="exploration", parts=e4_parts("C08", dict(quick=150000, thorough=2000000), dict(quick=8, thorough=12)) + [e5_part("C08", dict(quick=120, thorough=1500))] + [fuzz_part("vecconv", "C08", dict(quick=0, thorough=600000), 128)]),
     "C09": dict(level="fault_enumeration", parts=e4_parts("C09", dict(quick=150000, thorough=2000000), dict(quick=8, thorough=11)) + [fuzz_part("vecconv", "C09", dict(quick=0, thorough=600000), 128)]),
     "C10": dict(level="exploration", parts=e4_parts("C10", dict(quick=100000, thorough=800000), dict(quick=12, thorough=40)) + [fuzz_part("vecconv", "C10", dict(quick=0, thorough=600000), 128)]),
     "C12": dict(level="exploration", parts=[e1_part("C12", dict(quick=400000, thorough=4000000))] + [fuzz_part("layout", "C12", dict(quick=0, thorough=250000), 256)]),
